@@ -89,6 +89,11 @@ def scalar_pool():
             d(2020, 1, 1), d(1900, 3, 1)]
 
 
+def lookalike_texts():
+    """texts that spell an error code or a type name: they are TEXT, not errors"""
+    return ['#N/A', '#DIV/0!', '#VALUE!', '#REF!', '#NAME?', '#NUM!', '#NULL!', '#n/a', ' #N/A', 'TRUE', 'FALSE', '0', 'None']
+
+
 def lit(v):
     """formula literal of a scalar (None = reference to an empty cell)"""
     if v is None:
@@ -353,7 +358,7 @@ def run(ctx):
     # ---------------------------------------------------------------- (4) IS-family, NA
     reqs, meta = [], []
     for fn in ['ISERROR', 'ISERR', 'ISNA', 'ISNUMBER', 'ISTEXT', 'ISBLANK']:
-        for v in pool + errs:
+        for v in pool + errs + lookalike_texts():
             reqs.append('\t'.join(['C07', 'is', fn, wire(v)])); meta.append((fn, v))
     for (fn, v), r in zip(meta, ctx.driver.batch(reqs)):
         impl = parse_kv(r)['impl']
@@ -383,6 +388,18 @@ def run(ctx):
                                        'expected': w, 'got': real})
             elif impl != real:
                 res.drift.append({'fn': fn, 'arg': wire(v), 'impl_model': impl, 'real': real})
+    for t in lookalike_texts()[:8]:
+        for fn, want in (('ISNA', 'B:0'), ('ISERROR', 'B:0'), ('ISERR', 'B:0'), ('ISTEXT', 'B:1'), ('ISNUMBER', 'B:0')):
+            cells = {'Sheet1!A1': t, 'Sheet1!C1': f'={fn}(A1)', 'Sheet1!C2': f'={fn}("' + t + '")',
+                     'Sheet1!C3': f'={fn}(LEFT("' + t + ' or so",' + str(len(t)) + '))'}
+            for addr in ('Sheet1!C1', 'Sheet1!C2', 'Sheet1!C3'):
+                got = eval_cells(cells, {}, addr)
+                res.evaluations += 1
+                res.count('is-lookalike')
+                res.nontrivial.add((fn, 'lookalike', t, addr))
+                if got != want:
+                    res.violations.append({'what': f'{fn} of a TEXT that spells an error code', 'input': {'cells': cells, 'cell': addr},
+                                           'expected': want, 'got': got})
     real = call_real(xl.FUNCTIONS['NA'])
     res.evaluations += 1
     if real != 'E:NA':
